@@ -2,9 +2,33 @@ package main
 
 func init() {
 	register(&Property{
+		ID:          "C05",
+		Explanation: "RA over the stable compiler's scheduler and the shared symbol table: executor.results and result.blockedOn are touched only under their mutex; executor/result fields read without locks are never assigned after construction; descriptorProtoIsCustom is written only inside its sync.Once. RB: result.res/err are written only in fail/complete (write; close(ready)) and every other read is dominated by a receive from the same result's ready channel. RC5: Compile returns descriptors indexed by request position only after the handler verdict. RI/RJ: no map-order-, clock- or random-dependent value is produced in functions reachable from Compiler.Compile except through the listed order-insensitive idioms. RA4: insert-if-absent writes of the symbol table happen in the critical section that validated them.",
+		NotDecided:  "that linking a file is a pure function of its inputs beyond those sources; order of reporter callbacks (unconstrained by the property)",
+		Rules:       []func(*World){raCompiler, rbCompiler, rcCompile, raSymbols, ra4Symbols},
+	})
+	register(&Property{
+		ID:          "C06",
+		Explanation: "Deadlock-freedom skeleton of task.asFile: RC1 every result of executor.compile is cycle-checked (and a cycle error aborts) before it is stored or awaited; the self-import test precedes compile(dep); RC2 the semaphore permit is released before any wait; RC8 the task's blockedOn list (including the implicit descriptor.proto dependency) is published before the first compile/cycle check and cleared only after the last wait; RE permit/flag automaton; RF every blocking operation in the package has a <-ctx.Done() arm or uses the compile context; RA blockedOn under its mutex.",
+		NotDecided:  "that every real cycle is reported with the right text; absence of spurious cycle errors",
+		Rules:       []func(*World){rcAsFile, reCompiler, rfCompiler, raCompiler},
+	})
+	register(&Property{
+		ID:          "C07",
+		Explanation: "RD: over doCompile's CFG every path performs exactly one fail/complete and no call (direct or deferred, other than (*task).release) can execute after it, so the recover handler can never complete a result twice. RG: the only goroutine of the package installs a deferred recover whose non-nil branch fails the result with a PanicError carrying the value. RF: all waits are ctx-cancellable and Compile defers cancel(). RB: publication by close.",
+		NotDecided:  "goroutine counts after return when a resolver never returns; behaviour of the resolver itself",
+		Rules:       []func(*World){rdCompiler, rgCompiler, rfCompiler, rbCompiler, rcCompile, reCompiler},
+	})
+	register(&Property{
+		ID:          "C08",
+		Explanation: "RH1: reporter.Reporter.Error/Warning are invoked (resolved interface callee, whole module) only from (*Handler).HandleError/HandleWarning, on the parent == nil path, with the handler's sync.Mutex held exclusively. RH3: Reporter.Error is dominated by the false branch of h.err != nil and by errsReported = true, and its result is stored in h.err and returned. RH2: warning methods write no Handler field. RA: Handler.err/errsReported under mu. RC5: Compile and task.link return success only after the handler's Error() was consulted.",
+		NotDecided:  "that every detected problem is reported (input-dependent); the truth table of Handler.Error()",
+		Rules:       []func(*World){rhReporter, rcCompile, rcLink},
+	})
+	register(&Property{
 		ID:          "C16",
 		Explanation: "RA guarded-by over linker/symbols.go: every load/store/index/delete of packageSymbols.{children,files,symbols,exts} and Symbols.extDecls is dominated by Lock/RLock of the mutex of the same value (must-hold lock-set dataflow over the CFG; writes need the write lock), or sits in a helper all of whose static call sites hold it (checked per call site, propagated through helpers), or is a constructor access on an unshared object. Every field of the two structs must be in the table or the reviewed exemptions. No blocking operation (channel op, semaphore Acquire, Wait, Sleep) may execute while a table mutex may be held.",
-		NotDecided:  "the 'same collisions as one compile' clause (history-dependent; its atomicity part is C17)",
-		Rules:       []func(*World){raSymbols},
+		NotDecided:  "the 'same collisions as one compile' clause beyond the check-then-commit atomicity of each critical section (history-dependent; see also C17)",
+		Rules:       []func(*World){raSymbols, ra4Symbols},
 	})
 }
